@@ -35,6 +35,9 @@ pub trait Soa: Sized {
     fn drain_rev_collect(&mut self, a: usize, b: usize, out: &mut [Item; CAP]) -> usize;
     fn extend_(&mut self, items: &[Item]);
     fn collect_(items: &[Item]) -> Self;
+    /// extend / collect from an iterator whose size_hint lower bound is 0 (a filter that keeps everything)
+    fn extend_inexact_(&mut self, items: &[Item]);
+    fn collect_inexact_(items: &[Item]) -> Self;
     fn into_iter_collect(self, out: &mut [Item; CAP]) -> usize;
 }
 
@@ -89,6 +92,8 @@ macro_rules! soa_impl {
             }
             fn extend_(&mut self, items: &[Item]) { self.extend(items.iter().map(|it| { let $it = *it; $mk })) }
             fn collect_(items: &[Item]) -> Self { items.iter().map(|it| { let $it = *it; $mk }).collect() }
+            fn extend_inexact_(&mut self, items: &[Item]) { self.extend(items.iter().filter(|_| true).map(|it| { let $it = *it; $mk })) }
+            fn collect_inexact_(items: &[Item]) -> Self { items.iter().filter(|_| true).map(|it| { let $it = *it; $mk }).collect() }
             fn into_iter_collect(self, out: &mut [Item; CAP]) -> usize {
                 let mut n = 0;
                 for $c in self.into_iter() { if n < CAP { out[n] = $un; } n += 1; }
@@ -225,6 +230,22 @@ pub fn drain_rev<S: Soa, G: Gen>(g: &mut G) {
     ob!("drain_rev.wf", wf(&s, n - (b - a)));
 }
 
+pub fn extend_inexact<S: Soa, G: Gen>(g: &mut G) {
+    let (items, n) = any_items::<S, G>(g);
+    let m = g.usize();
+    g.assume(m <= CAP && n + m <= CAP);
+    cov!(g, n == 1 && m == 2);
+    let mut s = S::build(&items[..n]);
+    s.extend_inexact_(&items[n..n + m]);
+    ob!("extend_inexact.wf", wf(&s, n + m));
+    let mut k = 0;
+    while k < n + m { ob!("extend_inexact.view_is_concatenation", s.at(k) == items[k]); k += 1; }
+    let c = S::collect_inexact_(&items[..n]);
+    ob!("collect_inexact.wf", wf(&c, n));
+    let mut k = 0;
+    while k < n { ob!("collect_inexact.view", c.at(k) == items[k]); k += 1; }
+}
+
 pub fn extend_collect<S: Soa, G: Gen>(g: &mut G) {
     let (items, n) = any_items::<S, G>(g);
     let m = g.usize();
@@ -286,6 +307,11 @@ macro_rules! per_type {
                   desc: "extend appends component-wise in order, collect builds the same view as pushing, into_iter yields the colours in order" }
                 #[kani::unwind(6)]
                 fn ext(g) { extend_collect::<$ty, G>(g) }
+                { id: concat!($what, ".extend_collect_inexact_size_hint"), tier: quick, label: "bounded(len<=3)",
+                  func: concat!("Extend, FromIterator for ", $what, " from an iterator with size_hint().0 == 0"),
+                  desc: "extend / collect from an iterator that reports a lower size bound of 0 (filter) still appends every colour, component-wise and in order: the size hint is a hint, never the length" }
+                #[kani::unwind(6)]
+                fn ext_inexact(g) { extend_inexact::<$ty, G>(g) }
             }
         }
     };
